@@ -5,6 +5,7 @@ import (
 	"context"
 	"encoding/json"
 	"os"
+	"strings"
 
 	ae "github.com/godaddy/asherah/go/appencryption"
 	"github.com/godaddy/asherah/go/appencryption/pkg/crypto/aead"
@@ -26,6 +27,7 @@ type c06Case struct {
 	Foreign         string // outcome of decrypting Q's record in P's session: "plain" | "err" | "other"
 	Own             string // outcome of decrypting Q's record in Q's session
 	EmptyRefused    bool
+	Refused         string `json:"Refused,omitempty"` // "P" / "Q": GetSession refused this non-empty id
 }
 
 // idPieces are the building blocks of adversarial partition ids.
@@ -96,6 +98,11 @@ func runC06(a *args) error {
 				if q == "" {
 					q = "q"
 				}
+			case 3: // ids that a normalising lookup would identify: surrounding white space, letter case, trailing NUL
+				q = gen.Pick(r, []string{p + " ", " " + p, p + "\n", p + "\t", "\t" + p + " ", strings.ToUpper(p), strings.ToLower(p), p + "\x00", strings.TrimSpace(p)})
+				if q == p || q == "" {
+					q = p + " "
+				}
 			default:
 				q = c06ID(r, svc, prod)
 			}
@@ -134,12 +141,21 @@ func runC06(a *args) error {
 			c.EmptyRefused = true
 		}
 		sQ, err := fQ.GetSession(q)
-		if err != nil {
-			return err
+		if err != nil { // a non-empty id the SDK refuses: nothing to isolate; recorded and skipped by the check
+			c.Refused = "Q"
+			fP.Close()
+			fQ.Close()
+			out = append(out, c)
+			continue
 		}
 		sP, err := fP.GetSession(p)
 		if err != nil {
-			return err
+			c.Refused = "P"
+			sQ.Close()
+			fP.Close()
+			fQ.Close()
+			out = append(out, c)
+			continue
 		}
 		payload := []byte("payload-of-" + q)
 		rec, err := sQ.Encrypt(ctx, payload)
